@@ -9,9 +9,20 @@
 //   scaling <a> <b>                      -> getSIScaling(a, b) as a bit pattern d:<16 hex>
 //   scaling6 <pa> <ua> <wa> <pb> <ub> <wb>
 //   sanitize <unit>                      -> unitSanitizer
-//   deblank <unit>                       -> deblankString
+//   deblank <unit>                       -> deblankString(const std::string&)
+// further routes of util.hpp (lists are <count> item ...):
+//   vscalable <na> a.. <nb> b..          -> isScalable(vector<string>, vector<string>)
+//   setsame <na> a.. <nb> b..            -> isSetAtSamePos
+//   splitc <unit>                        -> splitCompoundUnit: <count> atom ...
+//   tosec_d <unit> d:<bits> / tosec_i <unit> <int>   -> convertToSeconds<double> / <int>
+//   tokel_d <unit> d:<bits> / tokel_i <unit> <int>   -> convertToKelvin<double> / <int>
+//   deblank_inplace <s>                  -> deblankString(std::string&)
+//   namecheck / namesan / chkname / chktype / chkempty <s>, chknt <name> <type>
+//   timert <t>  -> strToTime(timeToStr(t));  numrt <n> -> strToNum<long long>(numToStr(n));
+//   strnum <s>  -> strToNum<int>(s);         deref none|<n> -> deRef(boost::optional<int>)
 #include "common.hpp"
 #include <nix/util/util.hpp>
+#include <boost/optional.hpp>
 
 using namespace nixv;
 
@@ -46,6 +57,51 @@ static std::string handle(const std::vector<std::string> &t) {
     }
     if (c == "sanitize" && t.size() == 2) return enc_str(nix::util::unitSanitizer(dec_str(t[1])));
     if (c == "deblank" && t.size() == 2) return enc_str(nix::util::deblankString(dec_str(t[1])));
+    if (c == "vscalable" || c == "setsame") {
+        size_t i = 1;
+        size_t na = (size_t)dec_u64(t.at(i++));
+        std::vector<std::string> a, b;
+        for (size_t k = 0; k < na; k++) a.push_back(dec_str(t.at(i++)));
+        size_t nb = (size_t)dec_u64(t.at(i++));
+        for (size_t k = 0; k < nb; k++) b.push_back(dec_str(t.at(i++)));
+        if (i != t.size()) throw std::logic_error("bad command: trailing tokens");
+        bool r = c == "vscalable" ? nix::util::isScalable(a, b) : nix::util::isSetAtSamePos(a, b);
+        return r ? "1" : "0";
+    }
+    if (c == "splitc" && t.size() == 2) {
+        std::vector<std::string> atoms;
+        nix::util::splitCompoundUnit(dec_str(t[1]), atoms);
+        std::string o = enc_u64(atoms.size());
+        for (const auto &a : atoms) o += " " + enc_str(a);
+        return o;
+    }
+    if (c == "tosec_d" && t.size() == 3) return enc_dbl(nix::util::convertToSeconds<double>(dec_str(t[1]), dec_dbl(t[2])));
+    if (c == "tokel_d" && t.size() == 3) return enc_dbl(nix::util::convertToKelvin<double>(dec_str(t[1]), dec_dbl(t[2])));
+    if (c == "tosec_i" && t.size() == 3)
+        return "i:" + std::to_string(nix::util::convertToSeconds<int>(dec_str(t[1]), (int)dec_int(t[2])));
+    if (c == "tokel_i" && t.size() == 3)
+        return "i:" + std::to_string(nix::util::convertToKelvin<int>(dec_str(t[1]), (int)dec_int(t[2])));
+    if (c == "deblank_inplace" && t.size() == 2) { std::string s = dec_str(t[1]); nix::util::deblankString(s); return enc_str(s); }
+    if (c == "namecheck" && t.size() == 2) return nix::util::nameCheck(dec_str(t[1])) ? "1" : "0";
+    if (c == "namesan" && t.size() == 2) return enc_str(nix::util::nameSanitizer(dec_str(t[1])));
+    if (c == "chkname" && t.size() == 2) { nix::util::checkEntityName(dec_str(t[1])); return "ok"; }
+    if (c == "chktype" && t.size() == 2) { nix::util::checkEntityType(dec_str(t[1])); return "ok"; }
+    if (c == "chkempty" && t.size() == 2) { nix::util::checkEmptyString(dec_str(t[1]), "field"); return "ok"; }
+    if (c == "chknt" && t.size() == 3) { nix::util::checkEntityNameAndType(dec_str(t[1]), dec_str(t[2])); return "ok"; }
+    if (c == "timert" && t.size() == 2) {
+        time_t tt = (time_t)dec_int(t[1]);
+        return std::to_string((long long)nix::util::strToTime(nix::util::timeToStr(tt)));
+    }
+    if (c == "numrt" && t.size() == 2) {
+        long long n = dec_int(t[1]);
+        return std::to_string(nix::util::strToNum<long long>(nix::util::numToStr<long long>(n)));
+    }
+    if (c == "strnum" && t.size() == 2) return std::to_string(nix::util::strToNum<int>(dec_str(t[1])));
+    if (c == "deref" && t.size() == 2) {
+        boost::optional<int> o;
+        if (t[1] != "none") o = (int)dec_int(t[1]);
+        return std::to_string(nix::util::deRef(o)) + " " + std::to_string(nix::util::deRef((int)(t[1] == "none" ? 7 : dec_int(t[1]))));
+    }
     throw std::logic_error("bad command " + c);
 }
 
